@@ -71,6 +71,21 @@ CHECKS.update({
         ref="DESIGN.md 4 C05"),
 })
 
+CHECKS.update({
+    "C06": dict(
+        text="All of sorter.c is executed symbolically against contract models of the writer, reader, merger, iterator and thread-pool APIs and of qsort (any tie order) / mkstemp / unlink / close: for inputs of <= 4 adds in any order with duplicates and every chunk capacity, the spill happens exactly when the buffered bytes reach the limit, every chunk handed to the writer is strictly increasing with values folded once, the final iterator yields each distinct key once in order with the byte-sum of exactly the added values (values symbolic), temp files are created under the configured directory, and add/write after iteration are refused; with a pool for several delivery schedules.",
+        note="Cross-chunk merging is C04 (merger is a contract model here); keys concrete, <= 1 byte; pool delivery points are enumerated schedules (at once / next pool call / only at join), not all interleavings (C13/C14).",
+        ref="DESIGN.md 4 C06"),
+    "C12": dict(
+        text="Code obligations decided by the solver with CRC as an uninterpreted function with a call log: the reader with verify_checksums compares the CRC of exactly each block's stored bytes before returning any entry from it (iteration, get, seek, last block, index at open, v1/v2), mtbl_verify's verify_file says OK only after comparing every data block and the index, and a block whose recomputed CRC differs from the stored one is never accepted (the process stops / FAILED). CRC-32C's detection of 1..3 bit flips and bursts <= 32 bits is decided on the real implementations for payloads <= 4 bytes.",
+        note="Detection for longer blocks rests on the polynomial's published properties plus C17; writer side (stores crc of stored bytes) is asserted in the C09 queries.",
+        ref="DESIGN.md 4 C12"),
+    "C18": dict(
+        text="Life-cycle queries of the sorter, reader, merger and writer harnesses, each ending with every object destroyed, run with CBMC's memory-leak check and ghost tables for descriptors, mappings and temp files: sorter destroyed before/after iteration, after refused adds, pooled with undelivered chunk jobs, with a failing merge callback; reader iterators abandoned; files that do not open; merger iterators of all kinds; writers with refused adds. Found F6, F7, F10, F11 (fixed).",
+        note="'All finite histories' is approximated by destroy-at-every-stage shapes; filesets/dups and real threads are not covered.",
+        ref="DESIGN.md 4 C18"),
+})
+
 NOT_APPLICABLE = {
     "C14": "needs an engine that explores/over-approximates all executions of pointer-sharing pthread code and decides happens-before; CBMC 6.11 stops on threadpool.c ('pointer handling for concurrency is unsound'), no other such engine is installed (DESIGN.md 4 C14)",
 }
